@@ -38,6 +38,7 @@ def plan(tier, seed):
     q = tier == "quick"
     specs = pipework.plan_programs(tier, seed, "C07", nshards=16 if q else 48, per_shard=22 if q else 200)
     specs += [{"mode": "cli", "seed": seed, "shard": i, "n": 14 if q else 120} for i in range(4)]
+    specs += [{"mode": "closings"}]
     return specs
 
 
@@ -157,6 +158,43 @@ def run_programs(spec):
     return sh
 
 
+CLOSINGS = ["};", "}\tname;", "}\tt_name;", "} typedef t_name;", "} __attribute__((packed)) t_name;", "}\t*t_p;", "}\tname[2];",
+            "} static g_x;", "} const name;", "}\tt_name, *t_ptr;", "} t_name;", "}t_name;"]
+TYPE_HEADS = ["struct s_a", "typedef struct s_a", "union u_a", "typedef union u_a", "enum e_a", "typedef enum e_a", "struct", "typedef struct",
+              "static struct s_a", "typedef enum"]
+
+
+def run_closings(spec):
+    """every way of closing the body of a type definition the rules know, followed by a function: whatever the
+    diagnostics are, the nesting depth is back at file level after the closing line and at the end of the file, and
+    the function after it is examined as a function"""
+    sh = Shard(max_per_sig=3)
+    for h in TYPE_HEADS:
+        for c in CLOSINGS:
+            for brace_on_head in (False, True):
+                body = "\tA,\n\tB\n" if "enum" in h else "\tint\ta;\n\tchar\tb;\n"
+                src = (h + " {\n" if brace_on_head else h + "\n{\n") + body + c + "\n\nint\tmain(void)\n{\n\treturn (0);\n}\n"
+                for name in ("t.c", "t.h"):
+                    r = core.api_run(name, src, clock=False)
+                    case = {"name": name, "src": src, "mode": "api", "closing": c, "head": h}
+                    sh.case(name + "\0" + src)
+                    sh.tally("runs", "type_closing")
+                    pipework.monitor_failures(sh, r, case, seg=True)
+                    sh.add_asserts({k: v for k, v in r.sess.asserts.items() if k.startswith("seg.")})
+                    if r.outcome != "ok":
+                        sh.tally("fragment_outcomes", "type_closing->" + r.outcome)
+                        continue
+                    sh.count("c07.global_scope_at_end_of_file")
+                    st = r.sess.stmts
+                    if not st or st[-1][7] != ("GlobalScope", 0):
+                        sh.violation("scope_at_end_of_file", (str(st[-1][7]) if st else "-", "type_closing"), case,
+                                     {"scope_after": st[-1][7] if st else None, "closing": c, "head": h})
+                    sh.count("c07.function_after_type_is_examined_as_a_function")
+                    if not any(x[0] == "IsFuncDeclaration" for x in st):
+                        sh.violation("function_not_recognised_after_type", (c,), case, {"closing": c, "head": h, "rules": [x[0] for x in st][-6:]})
+    return sh
+
+
 def run_cli(spec):
     """CLI view: a run in which the monitor saw an unrecognised token prints the fatal form and exits non-zero"""
     sh = Shard()
@@ -192,6 +230,8 @@ def run_cli(spec):
 
 
 def run_shard(spec):
+    if spec["mode"] == "closings":
+        return run_closings(spec).result()
     if spec["mode"] == "cli":
         return run_cli(spec).result()
     return run_programs(spec).result()
@@ -216,6 +256,12 @@ def replay(case, sh):
     pipework.monitor_failures(sh, r, case, seg=True)
     if r.sess.unrec and r.outcome == "ok":
         sh.violation("unrecognised_dropped", (case.get("fragment"),), case, {"status": r.status, "first": r.sess.unrec[0]})
+    if case.get("closing") and r.outcome == "ok":
+        st = r.sess.stmts
+        if not st or st[-1][7] != ("GlobalScope", 0):
+            sh.violation("scope_at_end_of_file", ("replay",), case, {})
+        if not any(x[0] == "IsFuncDeclaration" for x in st):
+            sh.violation("function_not_recognised_after_type", ("replay",), case, {})
     if case.get("conforming") and r.outcome == "ok":
         from nv.gen.ir import Prog, Line
         p = Prog(case["name"], [Line("raw", [("x", "raw")]) for _ in range(case.get("ir_lines", 0))])
